@@ -298,10 +298,44 @@ def mutations(g: bytes, c: bytes, p: bytes, values):
 
 # ------------------------------------------------------------------------------------------------
 
+def judgement_chunk(terms):
+    """(4) the four judgements of the checker vs the document's pseudo code, function level"""
+    from . import universe
+    h = par.harness()
+    reqs, meta = [], []
+    for t in terms:
+        tb = universe.term_bytes(t).hex()
+        for fn in ('e_fresh', 's_fresh', 'positive', 'negative'):
+            for x in (0, 1):
+                reqs.append(f'J {tb} {fn} {x}')
+                meta.append((t, fn, x))
+    ans = h.ask_many(reqs)
+    stats = {'judgements': 0, 'judged_true': 0, 'unconstructible': 0}
+    viols = []
+    for (t, fn, x), a in zip(meta, ans):
+        if a == 'REJECT':
+            stats['unconstructible'] += 1
+            continue
+        stats['judgements'] += 1
+        want = getattr(rm, fn)(t, x)
+        if want:
+            stats['judged_true'] += 1
+        if (a == 'true') != want:
+            viols.append({'part': 'judgement', 'fn': fn, 'var': x, 'term': rm.show(t), 'gamma': '', 'claim': '',
+                          'proof': universe.term_bytes(t).hex(), 'detail': {'expected': want, 'observed': a, 'reason': fn}})
+    return stats, {}, viols
+
+
 def replay(path: str) -> int:
     import json
     v = json.loads(open(path).read())
     r = v['replay']
+    if r.get('part') == 'judgement':
+        h = common.Harness()
+        a = h.ask(f"J {r['proof']} {r['fn']} {r['var']}")
+        want = getattr(rm, r['fn'])(rm.parse(r['term']), r['var'])
+        print('checker:', a, ' document:', want)
+        return 0 if (a == 'true') == want else 1
     g, c, p = bytes.fromhex(r['gamma']), bytes.fromhex(r['claim']), bytes.fromhex(r['proof'])
     upto = r.get('upto', 2)
     h = common.Harness()
@@ -335,6 +369,20 @@ def main(argv=None) -> int:
     run_batches(chk, ((b'', b'', s) for s in raws), 'raw_proof', agg)
     run_batches(chk, ((s, b'', b'') for s in raw_strings(maxlen - 1)), 'raw_gamma', agg)
     run_batches(chk, ((G1, s, b'') for s in raw_strings(maxlen - 1)), 'raw_claim', agg)
+    # stack residue left by the gamma and claim phases must not be visible to the next phase (verify() clears it)
+    GR = G1 + bytes([2, 0])
+    CR = C1 + bytes([4, 0, 4, 0])
+    run_batches(chk, ((GR, CR, s) for s in raw_strings(maxlen - 1)), 'residue_proof', agg)
+    run_batches(chk, ((GR, s, b'') for s in raw_strings(maxlen - 1)), 'residue_claim', agg)
+    # (4) judgements at function level
+    from . import universe
+    jt = universe.meta(4 if thorough else 3)
+    for stats, _, viols in par.pmap(judgement_chunk, par.chunks(jt, common.ncpu() * 4)):
+        for k, v in stats.items():
+            agg[k] = agg.get(k, 0) + v
+        for v in viols:
+            sig = {'part': 'judgement', 'fn': v['fn'], 'var': v['var'], 'term': v['term']}
+            chk.violation(sig, v, f"{v['fn']}({v['var']}) of {v['term']}: document says {v['detail']['expected']}, checker says {v['detail']['observed']}")
     # (3) mutations of shipped programs
     trip = shipped_triples()
     budget = 4000 if thorough else 400  # total bytes of programs mutated exhaustively
@@ -352,7 +400,7 @@ def main(argv=None) -> int:
     run_batches(chk, [(g, c, p) for _, g, c, p in trip], 'shipped', agg)
     chk.sample({'mutated_triples': mutated})
     chk.sample({'raw_string_hex': raws[len(raws) // 2].hex()})
-    total = agg.get('transitions', 0) + sum(v for k, v in agg.items() if k.endswith('_programs'))
+    total = agg.get('transitions', 0) + sum(v for k, v in agg.items() if k.endswith('_programs')) + agg.get('judgements', 0)
     chk.set('states', agg.get('states', 0))
     chk.set('transitions', agg.get('transitions', 0))
     chk.set('traces_validated_against_impl', total)
